@@ -368,7 +368,8 @@ func (g *G) LeafOf(name string, k Kind) *B {
 	default:
 		panic("gen: not a leaf kind " + k.String())
 	}
-	b.Leaf = b.Err
+	// library leaf constructors attach a stack: the root cause is what lies below it
+	b.Leaf = errors.UnwrapAll(b.Err)
 	return b
 }
 
@@ -515,7 +516,7 @@ func (g *G) WrapOf(name string, c *B, k Kind) *B {
 		panic("gen: not a wrapper kind " + k.String())
 	}
 	if k == WHandledDomain {
-		b.Leaf = b.Err
+		b.Leaf = errors.UnwrapAll(b.Err)
 	}
 	return b
 }
